@@ -54,13 +54,13 @@ def judge(rec, k, ctx, case):
 
 def encode_rec(rec):
     return {"data": runner.hx(rec["data"]), "prefix": runner.hx(rec["prefix"]), "suffix": runner.hx(rec["suffix"]),
-            "blob": runner.hx(rec["blob"]), "payload": runner.hx(rec["payload"]), "wrap": bool(rec.get("wrap")), "decoy": bool(rec.get("decoy")),
+            "blob": runner.hx(rec["blob"]), "payload": runner.hx(rec["payload"]), "wrap": bool(rec.get("wrap")), "decoy": bool(rec.get("decoy")), "glue": bool(rec.get("glue")),
             "layers": [dict(l, plain=runner.hx(l["plain"]), value=runner.hx(l["value"])) for l in rec["layers"]]}
 
 
 def decode_rec(j):
     return {"data": runner.unhx(j["data"]), "prefix": runner.unhx(j["prefix"]), "suffix": runner.unhx(j["suffix"]),
-            "blob": runner.unhx(j["blob"]), "payload": runner.unhx(j["payload"]), "wrap": bool(j.get("wrap")), "decoy": bool(j.get("decoy")),
+            "blob": runner.unhx(j["blob"]), "payload": runner.unhx(j["payload"]), "wrap": bool(j.get("wrap")), "decoy": bool(j.get("decoy")), "glue": bool(j.get("glue")),
             "layers": [dict(l, plain=runner.unhx(l["plain"]), value=runner.unhx(l["value"])) for l in j["layers"]]}
 
 
@@ -74,9 +74,9 @@ def run_shard(spec, ctx):
         if big:
             names = ["psbytes"] + [r.choice([e.name for e in layers.ENCODERS[:-1]]) for _ in range(h - 1)]
             rec = layers.build_stack(r, h, names=names, pad_to=520)
-        elif r.random() < 0.012:
+        elif r.random() < 0.005:
             # payloads longer than any plausible fixed limit (8191, 64 KiB) under one to three layers
-            rec = layers.build_stack(r, min(h, 3), pad_to=r.choice([3000, 9000, 30000, 70000]), max_blob=1500000)
+            rec = layers.build_stack(r, min(h, 3), pad_to=r.choice([3000, 3000, 9000, 9000, 30000, 70000]), max_blob=1500000)
             if rec is not None:
                 ctx.count("long_payload_stacks")
         else:
